@@ -182,6 +182,57 @@ func init() {
 		}
 		return "ok"
 	})
+	// flt.short <kind> <hex digits, fewer than the full count>: a prefixed hexadecimal literal with fewer digits than LLVM prints is read the way LLVM's
+	// lexer splits it (HexToIntPair / FP80HexToIntPair: `0xK` = up to 4 digits of sign+exponent, then the mantissa; `0xL` / `0xM` = with 16 digits or more
+	// the first 16 digits and the rest, otherwise the second word alone; `0xH` / `0x` = the number): it must denote the same value, and print the same
+	// literal, as that full spelling
+	reg("flt.short", func(a []string) string {
+		typ := floatKind(a[0])
+		d := a[1]
+		pad := func(x string, n int) string { return strings.Repeat("0", n-len(x)) + x }
+		var full string
+		switch a[0] {
+		case "half":
+			full = pad(d, 4)
+		case "float", "double":
+			full = pad(d, 16)
+		case "x86_fp80":
+			n := 4
+			if len(d) < n {
+				n = len(d)
+			}
+			full = pad(d[:n], 4) + pad(d[n:], 16)
+		case "fp128", "ppc_fp128":
+			if len(d) < 16 {
+				full = pad("", 16) + pad(d, 16)
+			} else {
+				full = d[:16] + pad(d[16:], 16)
+			}
+		default:
+			return "ok"
+		}
+		if len(d) >= len(full) {
+			return "ok"
+		}
+		c1 := safe(func([]string) string {
+			c, err := constant.NewFloatFromString(typ, hexPrefix(a[0])+d)
+			if err != nil {
+				return "parse-error"
+			}
+			return c.Ident()
+		}, nil)
+		c2, err := constant.NewFloatFromString(typ, hexPrefix(a[0])+full)
+		if err != nil {
+			return "FAIL parse-error-full"
+		}
+		if c1 != c2.Ident() {
+			return "FAIL " + c1 + " vs " + c2.Ident()
+		}
+		if c3, ok := parseViaAsm(a[0], hexPrefix(a[0])+d); !ok || c3.Ident() != c2.Ident() {
+			return "FAIL asm"
+		}
+		return "ok"
+	})
 	// flt.dec <kind> <decimal text>: a decimal literal that LLVM accepts (exactly representable) must be read as exactly that value
 	reg("flt.dec", func(a []string) string {
 		typ := floatKind(a[0])
